@@ -81,6 +81,7 @@ type Unit struct {
 	inlineStack  map[*ssa.Function]bool
 	oldMem       MemState
 	mayPanic     bool
+	noInfer      bool // flag noinfer: no inferred loop invariants (they only serve index obligations)
 	nonBlocking  bool // flag nonblocking: a channel send must find room in the queue
 	noEscapeObjs []*Term // object ids of parameters under a noescape clause
 	explicitPanicOK bool // flag explicitpanic: panic(...) statements (internal consistency checks) are not obligations
@@ -187,6 +188,9 @@ type Frame struct {
 	stub *stubEval
 	// frame checking: nil = no check
 	frame *frameSpec
+	// assigns clauses of the loops being executed (inherited by expanded callees)
+	loopFrames []*loopFrame
+	curBlk     *ssa.BasicBlock
 	// loop-iteration allocations start at this counter (for loop assigns checks)
 	callCount map[string]int
 	inl       map[string]bool // callees forced to be inlined (lemma directive)
@@ -839,6 +843,7 @@ func (f *Frame) setMem(s Sort, m *MemNode) {
 // execBlock runs the instructions of b and records the outgoing edge states.
 func (f *Frame) execBlock(b *ssa.BasicBlock, hdr map[*ssa.BasicBlock]*loopInfo) {
 	tb := f.tb()
+	f.curBlk = b
 	for _, in := range b.Instrs {
 		if _, ok := in.(*ssa.Phi); ok {
 			continue
